@@ -149,6 +149,51 @@ type c12Op struct {
 
 var c12Dummy int
 
+// an interface variable as a C12 target: Interface(&v).Method("M"), configured through As(func literal) where the literal
+// is written anew in every chain (goom's documented idiom), so consecutive chains pass DIFFERENT function values
+type c12Iface interface{ M(a int) int }
+type c12Real struct{}
+
+//go:noinline
+func (c12Real) M(a int) int { return -7700 - a }
+
+var c12IV c12Iface = c12Real{}
+
+type c12IM struct {
+	im mocker.InterfaceMocker
+	n  int
+}
+
+func (u *c12IM) as() mocker.InterfaceMocker {
+	u.n++
+	if u.n%2 == 0 {
+		return u.im.As(func(ctx *mocker.IContext, a int) int { return 0 })
+	}
+	return u.im.As(func(ctx *mocker.IContext, a int) int { return 1 })
+}
+func (u *c12IM) Apply(cb interface{}) {
+	f := cb.(func(a int) int)
+	u.im.Apply(func(ctx *mocker.IContext, a int) int { return f(a) })
+}
+func (u *c12IM) Cancel()                                    { u.im.Cancel() }
+func (u *c12IM) Canceled() bool                             { return u.im.Canceled() }
+func (u *c12IM) String() string                             { return u.im.String() }
+func (u *c12IM) When(a ...interface{}) *mocker.When         { return u.as().When(a...) }
+func (u *c12IM) Return(v ...interface{}) *mocker.When       { return u.as().Return(v...) }
+func (u *c12IM) Returns(v ...interface{}) *mocker.When      { return u.as().Returns(v...) }
+func (u *c12IM) Origin(o interface{}) mocker.ExportedMocker { return u }
+
+var c12AdaptersI = map[mocker.InterfaceMocker]*c12IM{}
+
+func c12AdaptI(im mocker.InterfaceMocker) mocker.ExportedMocker {
+	if a, ok := c12AdaptersI[im]; ok {
+		return a
+	}
+	a := &c12IM{im: im}
+	c12AdaptersI[im] = a
+	return a
+}
+
 var c12AdaptersF = map[mocker.UnExportedMocker]*c02UM{}
 
 // c12AdaptF: as c02Adapt, for an unexported function of type func(int) int
@@ -171,24 +216,31 @@ func stubC12(c *common, rng *hxlib.Rng, out *hxlib.Out) int {
 		n = c.n
 	}
 	type tgt struct {
-		mk   func(b *mocker.Builder) mocker.ExportedMocker
-		call func(a int) int
-		cb   func(k int) interface{}
-		orig int
+		mk     func(b *mocker.Builder) mocker.ExportedMocker
+		call   func(a int) int
+		cb     func(k int) interface{}
+		orig   int
+		noWhen bool // generic instantiation: conditions on arguments are the subject of known finding F06a, not of C12
 	}
 	tt := &fnzoo.T{K: 1}
 	tgts := []tgt{
-		{func(b *mocker.Builder) mocker.ExportedMocker { return b.Func(fnzoo.F1) }, fnzoo.F1, func(k int) interface{} { return func(a int) int { return 500 + k } }, -1000},
-		{func(b *mocker.Builder) mocker.ExportedMocker { return b.Func(fnzoo.G1) }, fnzoo.G1, func(k int) interface{} { return func(a int) int { return 500 + k } }, -1100},
-		{func(b *mocker.Builder) mocker.ExportedMocker { return b.Struct(&fnzoo.T{}).Method("M2") }, tt.M2, func(k int) interface{} { return func(_ *fnzoo.T, a int) int { return 500 + k } }, -7501},
-		{func(b *mocker.Builder) mocker.ExportedMocker { return b.Struct(&fnzoo.T{}).Method("M") }, tt.M, func(k int) interface{} { return func(_ *fnzoo.T, a int) int { return 500 + k } }, -7001},
+		{func(b *mocker.Builder) mocker.ExportedMocker { return b.Func(fnzoo.F1) }, fnzoo.F1, func(k int) interface{} { return func(a int) int { return 500 + k } }, -1000, false},
+		{func(b *mocker.Builder) mocker.ExportedMocker { return b.Func(fnzoo.G1) }, fnzoo.G1, func(k int) interface{} { return func(a int) int { return 500 + k } }, -1100, false},
+		{func(b *mocker.Builder) mocker.ExportedMocker { return b.Struct(&fnzoo.T{}).Method("M2") }, tt.M2, func(k int) interface{} { return func(_ *fnzoo.T, a int) int { return 500 + k } }, -7501, false},
+		{func(b *mocker.Builder) mocker.ExportedMocker { return b.Struct(&fnzoo.T{}).Method("M") }, tt.M, func(k int) interface{} { return func(_ *fnzoo.T, a int) int { return 500 + k } }, -7001, false},
 		// an UNEXPORTED method of the same struct and an unexported function, looked up by name
 		{func(b *mocker.Builder) mocker.ExportedMocker {
 			return c02Adapt(b.Struct(&fnzoo.T{}).ExportMethod("um1"))
-		}, tt.CallUm1, func(k int) interface{} { return func(_ *fnzoo.T, a int) int { return 500 + k } }, -7201},
+		}, tt.CallUm1, func(k int) interface{} { return func(_ *fnzoo.T, a int) int { return 500 + k } }, -7201, false},
 		{func(b *mocker.Builder) mocker.ExportedMocker {
 			return c12AdaptF(b.Pkg("github.com/tencent/goom/verifharness/zoo/fnzoo").ExportFunc("uf1"))
-		}, fnzoo.CallUf1, func(k int) interface{} { return func(a int) int { return 500 + k } }, -7400},
+		}, fnzoo.CallUf1, func(k int) interface{} { return func(a int) int { return 500 + k } }, -7400, false},
+		// two instantiations of a generic function whose Go types are identical
+		{func(b *mocker.Builder) mocker.ExportedMocker { return b.Func(fnzoo.GK[int]) }, fnzoo.GK[int], func(k int) interface{} { return func(a int) int { return 500 + k } }, -7600, true},
+		{func(b *mocker.Builder) mocker.ExportedMocker { return b.Func(fnzoo.GK[string]) }, fnzoo.GK[string], func(k int) interface{} { return func(a int) int { return 500 + k } }, -7600, true},
+		// a method of an interface variable
+		{func(b *mocker.Builder) mocker.ExportedMocker { return c12AdaptI(b.Interface(&c12IV).Method("M")) }, func(a int) int { return c12IV.M(a) },
+			func(k int) interface{} { return func(a int) int { return 500 + k } }, -7700, false},
 	}
 	pkgs := []string{"github.com/tencent/goom/test", "some/other/pkg", "x"}
 	// journal: every operation is written (unbuffered) BEFORE it is executed and probed, so that a fatal crash
@@ -242,6 +294,9 @@ func stubC12(c *common, rng *hxlib.Rng, out *hxlib.Out) int {
 				nextR++
 			case k < 15:
 				op = c12Op{K: 3, A: live[rng.Intn(len(live))], B: rng.Intn(3), C: nextR}
+				if tgts[htgt[op.A]].noWhen {
+					op = c12Op{K: 2, A: op.A, B: nextR}
+				}
 				nextR++
 			case k < 17:
 				op = c12Op{K: 4, A: live[rng.Intn(len(live))]}
